@@ -216,17 +216,20 @@ type Report struct {
 }
 
 type FamCtx struct {
-	Gen    func() Case          // generator of the family, used by the failing-input search
-	Sig    func(Outcome) string // signature of a finding, matched against known_findings.txt
-	Rand   *rand.Rand
-	Seed   int64
-	Tier   string
-	Driver *Driver
-	Report *Report
-	seen   map[string]bool
-	nontr  map[string]bool
-	opHist map[string]int
-	hHist  map[int]int
+	Gen func() Case          // generator of the family, used by the failing-input search
+	Sig func(Outcome) string // signature of a finding, matched against known_findings.txt
+	// minimized past failures, replayed before the first generated case
+	corpus       []Case
+	corpusRunner Runner
+	Rand         *rand.Rand
+	Seed         int64
+	Tier         string
+	Driver       *Driver
+	Report       *Report
+	seen         map[string]bool
+	nontr        map[string]bool
+	opHist       map[string]int
+	hHist        map[int]int
 }
 
 func (f *FamCtx) Quick() bool { return f.Tier != "thorough" }
@@ -240,7 +243,20 @@ func (f *FamCtx) N(quick, thorough int) int {
 }
 
 // RunTreeCase runs one case with the standard tree session and book-keeping.
+// TakeCorpus hands the corpus to a family that replays it itself.
+func (f *FamCtx) TakeCorpus() []Case {
+	cs := f.corpus
+	f.corpus = nil
+	f.Report.CorpusReplayed += len(cs)
+	return cs
+}
+
 func (f *FamCtx) RunTreeCase(c Case, mk Runner, nontrivial func(CaseStats) bool) {
+	if len(f.corpus) > 0 {
+		for _, cc := range f.TakeCorpus() {
+			f.RunTreeCase(cc, f.corpusRunner, func(CaseStats) bool { return true })
+		}
+	}
 	var st CaseStats
 	o := RunCase(c, f.Driver, mk, &st)
 	f.Report.Cases++
